@@ -298,3 +298,355 @@ Proof.
   repeat (match goal with |- context [if ?b then _ else _] => destruct b end; try exact I).
   simpl. now apply inv_upd_data with r.
 Qed.
+
+(* ------------------------------------------------------------------ adding one node *)
+(* newVersion and merge: one new node, with the next version id and a UUID not in use, joins repo i;
+   the old nodes keep their UUIDs.  Everything but the head-cache clause follows. *)
+
+Definition uuids_kept (cv : N) (m m' : gmap N node) : Prop :=
+  forall v, v <> cv -> option_Forall2 (fun n n' => n_uuid n' = n_uuid n) (m !! v) (m' !! v).
+
+Lemma inv_add_node s s' i R r r' cu child :
+  RepoInv s -> st_roots s !! i = Some R -> st_repos s !! i = Some r ->
+  st_u2v s !! cu = None -> cu <> "" ->
+  st_repos s' = <[i := r']> (st_repos s) -> st_repo_of s' = <[cu := i]> (st_repo_of s) ->
+  st_roots s' = st_roots s -> st_u2v s' = <[cu := st_next_v s]> (st_u2v s) ->
+  st_v2u s' = <[st_next_v s := cu]> (st_v2u s) ->
+  st_next_v s' = (st_next_v s + 1)%N -> st_next_r s' = st_next_r s ->
+  r_root r' = r_root r -> repo_wf r' ->
+  r_nodes r' !! st_next_v s = Some child -> n_uuid child = cu ->
+  uuids_kept (st_next_v s) (r_nodes r) (r_nodes r') ->
+  (forall j Rj rj v n, st_roots s' !! j = Some Rj -> st_repos s' !! j = Some rj ->
+      r_nodes rj !! v = Some n -> n_branch n <> "" -> branch_leaf rj n ->
+      st_heads s' !! head_key (r_root rj) (n_branch n) = Some (n_uuid n)) ->
+  RepoInv s'.
+Proof.
+  intros I HR Hr Hcu Hne E1 E2 E3 E4 E5 E6 E7 ER W Hchild Uchild K Hheads.
+  set (cv := st_next_v s) in *.
+  assert (Hfresh : st_v2u s !! cv = None).
+  { destruct (st_v2u s !! cv) as [u|] eqn:E; auto. apply (inv_next_v s I) in E. unfold cv in E. lia. }
+  assert (Hlk : forall j rj, st_repos s' !! j = Some rj ->
+            (j = i /\ rj = r') \/ (j <> i /\ st_repos s !! j = Some rj)).
+  { intros j rj. rewrite E1. destruct (decide (j = i)) as [->|Ne].
+    - rewrite lookup_insert. intros [= <-]. auto.
+    - rewrite lookup_insert_ne by auto. auto. }
+  assert (Hold : forall j Rj rj v n, st_roots s !! j = Some Rj -> st_repos s !! j = Some rj ->
+            r_nodes rj !! v = Some n -> v <> cv /\ n_uuid n <> cu).
+  { intros j Rj rj v n H1 H2 H3. destruct (inv_nodes s I j Rj rj v n H1 H2 H3) as [Hv _].
+    split; [intros ->; congruence|]. intros Eu. apply (inv_bij s I) in Hv. congruence. }
+  constructor.
+  - intros j Rj HRj. rewrite E3 in HRj. rewrite E1. destruct (decide (j = i)) as [->|Ne].
+    + rewrite lookup_insert. exists r'. split; auto. split; auto.
+      destruct (inv_root_eq s i R r I HR Hr) as [ERr _]. congruence.
+    + rewrite lookup_insert_ne by auto. apply (inv_live s I j Rj HRj).
+  - intros u v. rewrite E4, E5. rewrite !lookup_insert_Some. split.
+    + intros [[<- <-]|[Ne Hu]]; [auto|]. right. pose proof (proj1 (inv_bij s I u v) Hu) as Hv.
+      split; auto. intros <-. congruence.
+    + intros [[<- <-]|[Ne Hv]]; [auto|]. right. pose proof (proj2 (inv_bij s I u v) Hv) as Hu.
+      split; auto. intros <-. congruence.
+  - intros j Rj rj v n HRj Hrj Hn. rewrite E3 in HRj. rewrite E5, E2.
+    destruct (Hlk j rj Hrj) as [[-> ->]|[Ne Hrj']].
+    + destruct (decide (v = cv)) as [->|Nv].
+      * rewrite Hchild in Hn. injection Hn as <-. rewrite Uchild, !lookup_insert. auto.
+      * specialize (K v Nv). rewrite Hn in K. inversion K as [n0 n' Eu E0 E'|]; subst.
+        symmetry in E0. rewrite HR in HRj. injection HRj as <-.
+        destruct (Hold i R r v n0 HR Hr E0) as [_ Nu].
+        destruct (inv_nodes s I i R r v n0 HR Hr E0) as [A B].
+        rewrite Eu. rewrite !lookup_insert_ne by auto. auto.
+    + destruct (Hold j Rj rj v n HRj Hrj' Hn) as [Nv Nu].
+      rewrite !lookup_insert_ne by auto. apply (inv_nodes s I j Rj rj v n HRj Hrj' Hn).
+  - intros u j Hj. rewrite E2 in Hj. rewrite E3, E4, E1. apply lookup_insert_Some in Hj as [[<- <-]|[Ne Hj]].
+    + exists R, r', cv, child. rewrite !lookup_insert. auto.
+    + destruct (inv_repo_of s I u j Hj) as (Rj & rj & v & n & HRj & Hrj & Hu & Hn).
+      destruct (Hold j Rj rj v n HRj Hrj Hn) as [Nv _].
+      destruct (decide (j = i)) as [->|Nj].
+      * rewrite Hr in Hrj. injection Hrj as <-. specialize (K v Nv). rewrite Hn in K.
+        inversion K as [n0 n' Eu E0 E'|]; subst. symmetry in E'.
+        exists Rj, r', v, n'. rewrite lookup_insert, lookup_insert_ne by auto. auto.
+      * exists Rj, rj, v, n. rewrite !lookup_insert_ne by auto. auto.
+  - intros v u. rewrite E5, E2. intros H. apply lookup_insert_Some in H as [[<- <-]|[Ne H]].
+    + rewrite lookup_insert. eauto.
+    + destruct (inv_mapped s I v u H) as [j Hj]. destruct (decide (u = cu)) as [->|Nu].
+      * rewrite lookup_insert. eauto.
+      * rewrite lookup_insert_ne by auto. eauto.
+  - intros v u. rewrite E5, E6. intros H. apply lookup_insert_Some in H as [[<- <-]|[Ne H]]; [fold cv; lia|].
+    apply (inv_next_v s I) in H. fold cv in H |- *. lia.
+  - intros j rj Hrj. rewrite E7. destruct (Hlk j rj Hrj) as [[-> ->]|[Ne Hrj']].
+    + apply (inv_next_r s I i r Hr).
+    + apply (inv_next_r s I j rj Hrj').
+  - rewrite E4. rewrite lookup_insert_ne by auto. apply (inv_nil s I).
+  - exact Hheads.
+Qed.
+
+(* ------------------------------------------------------------------ newVersion: the repo *)
+Section NewVersionRepo.
+Variables (r : repo) (v cv : N) (n : node) (cu b : string).
+Hypothesis W : repo_wf r.
+Hypothesis Hn : r_nodes r !! v = Some n.
+Hypothesis Hlocked : n_locked n = true.
+Hypothesis Hlt : forall w x, r_nodes r !! w = Some x -> (w < cv)%N.
+Hypothesis Hsis : forall c cn, c ∈ n_children n -> r_nodes r !! c = Some cn -> n_branch cn <> b.
+Hypothesis Hbm : b <> "master".
+
+Let child := mkNode cu [v] [] b false.
+Let nodes' := <[cv := child]> (alter (add_child cv) v (r_nodes r)).
+Let r' := upd_nodes (fun m => <[cv := child]> (alter (add_child cv) v m)) r.
+
+Lemma nv_v_ne_cv : v <> cv.
+Proof. intros ->. apply Hlt in Hn. lia. Qed.
+
+Lemma nv_child : nodes' !! cv = Some child.
+Proof. unfold nodes'. now rewrite lookup_insert. Qed.
+
+Lemma nv_parent : nodes' !! v = Some (add_child cv n).
+Proof. unfold nodes'. rewrite lookup_insert_ne by (apply not_eq_sym, nv_v_ne_cv). now rewrite lookup_alter, Hn. Qed.
+
+Lemma nv_other w : w <> cv -> w <> v -> nodes' !! w = r_nodes r !! w.
+Proof. intros A B. unfold nodes'. now rewrite lookup_insert_ne, lookup_alter_ne by auto. Qed.
+
+(* every node of the new map but the child is an old node, with at most cv added to its children *)
+Lemma nv_old w x : nodes' !! w = Some x -> w <> cv ->
+  exists x0, r_nodes r !! w = Some x0 /\ n_uuid x = n_uuid x0 /\ n_parents x = n_parents x0 /\
+             n_branch x = n_branch x0 /\ n_locked x = n_locked x0 /\
+             ((w <> v /\ x = x0) \/ (w = v /\ x0 = n /\ n_children x = (n_children x0 ++ [cv])%list)).
+Proof.
+  intros H Ne. destruct (decide (w = v)) as [->|Nv].
+  - rewrite nv_parent in H. injection H as <-. exists n. simpl. repeat split; auto.
+  - rewrite nv_other in H by auto. exists x. repeat split; auto.
+Qed.
+
+Lemma nv_fwd w x0 : r_nodes r !! w = Some x0 ->
+  exists x, nodes' !! w = Some x /\ n_uuid x = n_uuid x0 /\ n_parents x = n_parents x0 /\
+            n_branch x = n_branch x0 /\ n_locked x = n_locked x0 /\
+            (forall c, c ∈ n_children x0 -> c ∈ n_children x).
+Proof.
+  intros H. pose proof (Hlt _ _ H) as L. assert (w <> cv) by lia.
+  destruct (decide (w = v)) as [->|Nv].
+  - rewrite Hn in H. injection H as <-. exists (add_child cv n). rewrite nv_parent. simpl.
+    repeat split; auto. intros c Hc. apply elem_of_app. auto.
+  - exists x0. rewrite nv_other by auto. repeat split; auto.
+Qed.
+
+Lemma nv_child_not_old c x : r_nodes r !! c = Some x -> c <> cv.
+Proof. intros H ->. apply Hlt in H. lia. Qed.
+
+Lemma wf_new_version : repo_wf r'.
+Proof.
+  pose proof nv_v_ne_cv as Nvc.
+  constructor; unfold r'; simpl; fold nodes'.
+  - destruct (wf_root r W) as (n0 & H0 & U0 & P0).
+    destruct (nv_fwd _ _ H0) as (x & Hx & A & B & _). exists x. repeat split; congruence.
+  - intros w x Hx P. destruct (decide (w = cv)) as [->|Ne].
+    + rewrite nv_child in Hx. injection Hx as <-. discriminate P.
+    + destruct (nv_old w x Hx Ne) as (x0 & H0 & _ & B & _). apply (wf_single_root r W w x0 H0). congruence.
+  - intros w x p Hx Hp. destruct (decide (w = cv)) as [->|Ne].
+    + rewrite nv_child in Hx. injection Hx as <-. simpl in Hp. apply elem_of_list_singleton in Hp as ->.
+      split; [apply (Hlt _ _ Hn)|]. exists (add_child cv n). rewrite nv_parent. simpl.
+      repeat split; auto. apply elem_of_app. right. now apply elem_of_list_singleton.
+    + destruct (nv_old w x Hx Ne) as (x0 & H0 & _ & B & _). rewrite B in Hp.
+      destruct (wf_parents r W w x0 p H0 Hp) as (Lt & pn & Hpn & Lk & Ch). split; auto.
+      destruct (nv_fwd _ _ Hpn) as (pn' & Hpn' & _ & _ & _ & L' & C'). exists pn'. rewrite L'. auto.
+  - intros w x c Hx Hc. destruct (decide (w = cv)) as [->|Ne].
+    + rewrite nv_child in Hx. injection Hx as <-. simpl in Hc. inversion Hc.
+    + destruct (nv_old w x Hx Ne) as (x0 & H0 & _ & _ & _ & _ & [[Nv ->]|(-> & -> & Ec)]).
+      * destruct (wf_children r W w x0 c H0 Hc) as (cn & Hcn & Pc).
+        destruct (nv_fwd _ _ Hcn) as (cn' & Hcn' & _ & B' & _). exists cn'. rewrite B'. auto.
+      * rewrite Ec in Hc. apply elem_of_app in Hc as [Hc|Hc].
+        -- destruct (wf_children r W v n c Hn Hc) as (cn & Hcn & Pc).
+           destruct (nv_fwd _ _ Hcn) as (cn' & Hcn' & _ & B' & _). exists cn'. rewrite B'. auto.
+        -- apply elem_of_list_singleton in Hc as ->. exists child. rewrite nv_child. split; auto.
+           simpl. now apply elem_of_list_singleton.
+  - intros w x Hx. destruct (decide (w = cv)) as [->|Ne].
+    + rewrite nv_child in Hx. injection Hx as <-. simpl. split; [apply NoDup_singleton|apply NoDup_nil_2].
+    + destruct (nv_old w x Hx Ne) as (x0 & H0 & _ & B & _ & _ & [[Nv ->]|(-> & -> & Ec)]).
+      * apply (wf_nodup r W w x0 H0).
+      * destruct (wf_nodup r W v n Hn) as [ND1 ND2]. rewrite B, Ec. split; auto.
+        apply NoDup_app. repeat split; auto; [|apply NoDup_singleton].
+        intros c Hc Hc'. apply elem_of_list_singleton in Hc' as ->.
+        destruct (wf_children r W v n cv Hn Hc) as (cn & Hcn & _). now apply nv_child_not_old in Hcn.
+  - intros w x Hx Hb. destruct (decide (w = cv)) as [->|Ne].
+    + rewrite nv_child in Hx. injection Hx as <-. simpl. eauto.
+    + destruct (nv_old w x Hx Ne) as (x0 & H0 & _ & B & C & _). rewrite B.
+      apply (wf_named_one_parent r W w x0 H0). congruence.
+  - intros w x c1 c2 n1 n2 Hx Hc1 Hc2 H1 H2 P1 P2 Eb.
+    destruct (decide (w = cv)) as [->|Ne].
+    { rewrite nv_child in Hx. injection Hx as <-. simpl in Hc1. inversion Hc1. }
+    (* a child of an old node that is itself old, seen through the old map *)
+    assert (Hback : forall c nc, nodes' !! c = Some nc -> c <> cv ->
+              exists nc0, r_nodes r !! c = Some nc0 /\ n_parents nc0 = n_parents nc /\ n_branch nc0 = n_branch nc).
+    { intros c nc Hc Nc. destruct (nv_old c nc Hc Nc) as (nc0 & A & _ & B & C & _). exists nc0. auto. }
+    destruct (nv_old w x Hx Ne) as (x0 & H0 & _ & _ & _ & _ & [[Nv ->]|(-> & -> & Ec)]).
+    + assert (N1 : c1 <> cv).
+      { destruct (wf_children r W w x0 c1 H0 Hc1) as (cn & Hcn & _). now apply nv_child_not_old in Hcn. }
+      assert (N2 : c2 <> cv).
+      { destruct (wf_children r W w x0 c2 H0 Hc2) as (cn & Hcn & _). now apply nv_child_not_old in Hcn. }
+      destruct (Hback c1 n1 H1 N1) as (m1 & A1 & B1 & C1). destruct (Hback c2 n2 H2 N2) as (m2 & A2 & B2 & C2).
+      apply (wf_linear r W w x0 c1 c2 m1 m2 H0 Hc1 Hc2 A1 A2); congruence.
+    + rewrite Ec in Hc1, Hc2. apply elem_of_app in Hc1 as [Hc1|Hc1]; apply elem_of_app in Hc2 as [Hc2|Hc2].
+      * assert (N1 : c1 <> cv).
+        { destruct (wf_children r W v n c1 Hn Hc1) as (cn & Hcn & _). now apply nv_child_not_old in Hcn. }
+        assert (N2 : c2 <> cv).
+        { destruct (wf_children r W v n c2 Hn Hc2) as (cn & Hcn & _). now apply nv_child_not_old in Hcn. }
+        destruct (Hback c1 n1 H1 N1) as (m1 & A1 & B1 & C1). destruct (Hback c2 n2 H2 N2) as (m2 & A2 & B2 & C2).
+        apply (wf_linear r W v n c1 c2 m1 m2 Hn Hc1 Hc2 A1 A2); congruence.
+      * apply elem_of_list_singleton in Hc2 as ->. rewrite nv_child in H2. injection H2 as <-. simpl in Eb.
+        assert (N1 : c1 <> cv).
+        { destruct (wf_children r W v n c1 Hn Hc1) as (cn & Hcn & _). now apply nv_child_not_old in Hcn. }
+        destruct (Hback c1 n1 H1 N1) as (m1 & A1 & B1 & C1). exfalso. apply (Hsis c1 m1 Hc1 A1). congruence.
+      * apply elem_of_list_singleton in Hc1 as ->. rewrite nv_child in H1. injection H1 as <-. simpl in Eb.
+        assert (N2 : c2 <> cv).
+        { destruct (wf_children r W v n c2 Hn Hc2) as (cn & Hcn & _). now apply nv_child_not_old in Hcn. }
+        destruct (Hback c2 n2 H2 N2) as (m2 & A2 & B2 & C2). exfalso. apply (Hsis c2 m2 Hc2 A2). congruence.
+      * apply elem_of_list_singleton in Hc1 as ->. apply elem_of_list_singleton in Hc2 as ->. reflexivity.
+  - intros w x Hx. destruct (decide (w = cv)) as [->|Ne].
+    + rewrite nv_child in Hx. injection Hx as <-. exact Hbm.
+    + destruct (nv_old w x Hx Ne) as (x0 & H0 & _ & _ & C & _). rewrite C. apply (wf_no_master r W w x0 H0).
+  - apply (wf_root_len r W).
+Qed.
+
+Lemma nv_uuids_kept : uuids_kept cv (r_nodes r) (r_nodes r').
+Proof.
+  intros w Ne. unfold r'; simpl; fold nodes'. destruct (decide (w = v)) as [->|Nv].
+  - rewrite nv_parent, Hn. constructor. reflexivity.
+  - rewrite nv_other by auto. destruct (r_nodes r !! w); constructor. reflexivity.
+Qed.
+
+End NewVersionRepo.
+
+Lemma lookup_all_elem (m : gmap N node) vs l c cn :
+  lookup_all m vs = Some l -> c ∈ vs -> m !! c = Some cn -> cn ∈ l.
+Proof.
+  revert l. induction vs as [|a vs IH]; intros l H Hc Hm; [inversion Hc|].
+  simpl in H. destruct (m !! a) as [na|] eqn:Ea; [|discriminate].
+  destruct (lookup_all m vs) as [l'|]; [|discriminate]. injection H as <-.
+  apply elem_of_cons in Hc as [->|Hc].
+  - rewrite Ea in Hm. injection Hm as ->. apply elem_of_cons. auto.
+  - apply elem_of_cons. right. eapply IH; eauto.
+Qed.
+
+Lemma existsb_false_elem {A} (f : A -> bool) l x : existsb f l = false -> x ∈ l -> f x = false.
+Proof.
+  induction l as [|a l IH]; intros H Hx; [inversion Hx|]. simpl in H. apply orb_false_iff in H as [H1 H2].
+  apply elem_of_cons in Hx as [->|Hx]; auto.
+Qed.
+
+(* ------------------------------------------------------------------ newVersion: the state *)
+
+Lemma inv_new_version_core s i R r v n cu b :
+  RepoInv s -> st_roots s !! i = Some R -> st_repos s !! i = Some r -> r_nodes r !! v = Some n ->
+  n_locked n = true -> st_u2v s !! cu = None -> cu <> "" -> b <> "master" ->
+  (forall c cn, c ∈ n_children n -> r_nodes r !! c = Some cn -> n_branch cn <> b) ->
+  (b = n_branch n \/ forall w x, r_nodes r !! w = Some x -> n_branch x <> b) ->
+  RepoInv (upd_repo (set_repo_of (set_head (fst (new_uuid s cu)) (head_key (r_root r) b) cu) cu i) i
+             (upd_nodes (fun m => <[st_next_v s := mkNode cu [v] [] b false]> (alter (add_child (st_next_v s)) v m)))).
+Proof.
+  intros I HR Hr Hn Hlk Hcu Hne Hbm Hsis Hcase.
+  destruct (inv_root_eq s i R r I HR Hr) as [ER W].
+  set (cv := st_next_v s). set (child := mkNode cu [v] [] b false).
+  set (r' := upd_nodes (fun m => <[cv := child]> (alter (add_child cv) v m)) r).
+  assert (Hlt : forall w x, r_nodes r !! w = Some x -> (w < cv)%N).
+  { intros w x Hx. destruct (inv_nodes s I i R r w x HR Hr Hx) as [Hv _]. apply (inv_next_v s I w _ Hv). }
+  pose proof (wf_new_version r v cv n cu b W Hn Hlk Hlt Hsis Hbm) as W'. fold child in W'. fold r' in W'.
+  eapply (inv_add_node s _ i R r r' cu child); eauto; simpl; fold cv.
+  - now apply alter_as_insert.
+  - unfold r'. simpl. now rewrite lookup_insert.
+  - apply (nv_uuids_kept r v cv n cu b Hn Hlt).
+  - (* the head cache *)
+    intros j Rj rj w x HRj Hrj Hx Hb L.
+    assert (Hrj' : (j = i /\ rj = r') \/ (j <> i /\ st_repos s !! j = Some rj)).
+    { revert Hrj. destruct (decide (j = i)) as [->|Nj].
+      - rewrite lookup_alter, Hr. simpl. intros [= <-]. auto.
+      - rewrite lookup_alter_ne by auto. auto. }
+    destruct Hrj' as [[-> ->]|[Nj Hrj']].
+    + change (r_root r') with (r_root r). change (r_nodes r') with (<[cv := child]> (alter (add_child cv) v (r_nodes r))) in Hx.
+      destruct (decide (w = cv)) as [->|Nw].
+      * rewrite lookup_insert in Hx. injection Hx as <-. simpl. now rewrite lookup_insert.
+      * destruct (nv_old r v cv n cu b Hn Hlt w x Hx Nw) as (x0 & H0 & EU & EP & EB & EL & Hch).
+        (* x0 is a leaf of its branch in the old repo *)
+        assert (L0 : branch_leaf r x0).
+        { intros c cn Hc Hcn. destruct (nv_fwd r v cv n cu b Hn Hlt c cn Hcn) as (cn' & Hcn' & _ & _ & EB' & _).
+          rewrite <- EB, <- EB'. apply (L c cn'); auto.
+          destruct Hch as [[_ ->]|(_ & _ & ->)]; auto. apply elem_of_app. auto. }
+        assert (Hb0 : n_branch x0 <> "") by congruence.
+        pose proof (inv_heads s I i R r w x0 HR Hr H0 Hb0 L0) as Hold.
+        assert (Nb : n_branch x <> b).
+        { intros Eb. destruct Hch as [[Nv ->]|(-> & -> & Ech)].
+          - destruct Hcase as [->|Hnone]; [|now apply (Hnone w x0 H0)].
+            (* the parent is the leaf of that branch: two leaves would share the head entry *)
+            assert (Ln : branch_leaf r n) by (intros c cn Hc Hcn; now apply (Hsis c cn)).
+            assert (Hbn : n_branch n <> "") by congruence.
+            pose proof (inv_heads s I i R r v n HR Hr Hn Hbn Ln) as Hold'.
+            rewrite Eb in Hold. rewrite Hold' in Hold. injection Hold as Eu.
+            pose proof (inv_node_u2v s i R r v n I HR Hr Hn) as U1.
+            pose proof (inv_node_u2v s i R r w x0 I HR Hr H0) as U2.
+            rewrite Eu, U2 in U1. injection U1 as ->. now apply Nv.
+          - (* the parent itself: its new child carries b, so it is no leaf of b *)
+            apply (L cv child); [rewrite Ech; apply elem_of_app; right; now apply elem_of_list_singleton| |].
+            + simpl. now rewrite lookup_insert.
+            + simpl. congruence. }
+        rewrite lookup_insert_ne.
+        -- rewrite EU, EB. exact Hold.
+        -- intros Ek. assert (Hxm : n_branch x <> "master") by (rewrite EB; apply (wf_no_master r W w x0 H0)).
+           destruct (head_key_inj _ _ _ _ (wf_root_len r W) (wf_root_len r W) Hbm Hxm Ek) as [_ Ek']. congruence.
+    + (* another repo: its keys start with another root *)
+      destruct (inv_root_eq s j Rj rj I HRj Hrj') as [ERj Wj].
+      rewrite lookup_insert_ne; [apply (inv_heads s I j Rj rj w x HRj Hrj' Hx Hb L)|].
+      intros Ek. pose proof (wf_no_master rj Wj w x Hx) as Hxm.
+      destruct (head_key_inj _ _ _ _ (wf_root_len r W) (wf_root_len rj Wj) Hbm Hxm Ek) as [Ek' _].
+      apply Nj. apply (inv_roots_inj s j i Rj I HRj). congruence.
+Qed.
+
+Lemma inv_new_version s parent bname assign fresh :
+  RepoInv s -> bname <> "master" ->
+  (assign = None -> fresh <> "" /\ st_u2v s !! fresh = None) ->
+  RepoInv (fst (do_new_version repaired s parent bname assign fresh)).
+Proof.
+  intros I Hbm Hfresh. unfold do_new_version.
+  destruct (find_node s parent) as [[[[i r] v] n]|] eqn:F; [|exact I].
+  destruct (find_node_live s parent i r v n I F) as (R & HR & Un).
+  apply find_node_spec in F as (Hu & Hi & Hr & Hn).
+  destruct (inv_root_eq s i R r I HR Hr) as [ER W].
+  destruct (n_locked n) eqn:Hlk; [|exact I]. simpl negb. cbv iota.
+  set (br := if String.eqb bname "" || String.eqb bname (n_branch n) then _ else _).
+  destruct br as [b|] eqn:Eb; [|exact I]. subst br.
+  simpl fx_assign_check. cbv iota. rewrite andb_true_l.
+  destruct (assign_refused s assign) eqn:Ea; [exact I|].
+  (* the UUID of the child is not in use and not empty *)
+  assert (Hcu : st_u2v s !! (match assign with Some a => a | None => fresh end) = None /\
+                (match assign with Some a => a | None => fresh end) <> "").
+  { destruct assign as [a|]; simpl in Ea.
+    - apply orb_false_iff in Ea as [E1 E2]. apply eqb_false_ne in E1.
+      apply bool_decide_eq_false in E2. split; auto.
+      destruct (st_u2v s !! a); auto. exfalso. apply E2. eauto.
+    - destruct (Hfresh eq_refl). auto. }
+  destruct Hcu as [Hcu Hne].
+  unfold new_uuid. simpl.
+  (* what the branch computation guarantees *)
+  assert (Hb : b <> "master" /\
+               (forall c cn, c ∈ n_children n -> r_nodes r !! c = Some cn -> n_branch cn <> b) /\
+               (b = n_branch n \/ forall w x, r_nodes r !! w = Some x -> n_branch x <> b)).
+  { destruct (String.eqb bname "" || String.eqb bname (n_branch n)) eqn:Ec.
+    - destruct (lookup_all (r_nodes r) (n_children n)) as [sis|] eqn:Es; [|discriminate].
+      destruct (existsb _ sis) eqn:Ex; [discriminate|]. injection Eb as <-.
+      split; [apply (wf_no_master r W v n Hn)|]. split; auto.
+      intros c cn Hc Hcn. pose proof (lookup_all_elem _ _ _ _ _ Es Hc Hcn) as Hin.
+      pose proof (existsb_false_elem _ _ _ Ex Hin) as Hf. simpl in Hf. now apply eqb_false_ne in Hf.
+    - destruct (existsb _ (nodes_list r)) eqn:Ex; [discriminate|]. injection Eb as <-.
+      assert (Hall : forall w x, r_nodes r !! w = Some x -> n_branch x <> bname).
+      { intros w x Hx. assert (Hin : (w, x) ∈ nodes_list r) by now apply elem_of_map_to_list.
+        pose proof (existsb_false_elem _ _ _ Ex Hin) as Hf. simpl in Hf. now apply eqb_false_ne in Hf. }
+      split; auto. split; eauto. }
+  destruct Hb as (Hb1 & Hb2 & Hb3).
+  apply (inv_new_version_core s i R r v n _ b I HR Hr Hn Hlk Hcu Hne Hb1 Hb2 Hb3).
+Qed.
+
+Lemma new_version_frame fx s parent bname assign fresh :
+  is_done (snd (do_new_version fx s parent bname assign fresh)) = false ->
+  fst (do_new_version fx s parent bname assign fresh) = s.
+Proof.
+  unfold do_new_version. destruct (find_node s parent) as [[[[i r] v] n]|]; auto.
+  destruct (negb (n_locked n)); auto.
+  match goal with |- context [match ?x with Some _ => _ | None => (s, Fail) end] => destruct x end; auto.
+  destruct (fx_assign_check fx && assign_refused s assign); auto.
+  unfold new_uuid. simpl. discriminate.
+Qed.
